@@ -10,8 +10,8 @@ PROP = {
     'evals': ['agrees', 'c02_ok'],
     # --limits 1 / --rollshrink 1 switch on the generator modes that reproduce the known findings F02a / F04c,
     # --stuck 1 the directed probes of the candidate finding F02d/F02e (see the evidence note)
-    'extra': {'quick': {'histories': 8, 'ops': 30, 'limits': 0, 'rollshrink': 0, 'stuck': 0},
-              'thorough': {'histories': 32, 'ops': 80, 'limits': 0, 'rollshrink': 0, 'stuck': 0}},
+    'extra': {'quick': {'histories': 8, 'ops': 30, 'limits': 1, 'rollshrink': 1, 'stuck': 1},
+              'thorough': {'histories': 32, 'ops': 80, 'limits': 1, 'rollshrink': 1, 'stuck': 1}},
     'replay_header': D_HEADER,
     'replay_footer': "Eval vm_compute in (CaCheck.failing agrees base_index cases).\nEval vm_compute in (CaCheck.failing c02_ok base_index cases).",
     'stats_keys': ['histories', 'ops_per_history', 'command_distribution', 'received_cert_distribution', 'settle_rounds_distribution', 'modes'],
